@@ -14,6 +14,11 @@ func (s *Service) SetHP(data info.ModifyAttribute, isDamage bool) error {
 	if !ok {
 		return fmt.Errorf("unknown target: %v", data.Target)
 	}
+	// death is final: a unit whose death was not held back by a revive effect (limbo) can no
+	// longer be healed or damaged, it is announced dead at the next death check
+	if t.state == info.Dead {
+		return nil
+	}
 	attr := t.attributes
 
 	oldRatio := attr.HPRatio
@@ -35,6 +40,11 @@ func (s *Service) ModifyHPByAmount(data info.ModifyAttribute, isDamage bool) err
 	t, ok := s.targets[data.Target]
 	if !ok {
 		return fmt.Errorf("unknown target: %v", data.Target)
+	}
+	// death is final: a unit whose death was not held back by a revive effect (limbo) can no
+	// longer be healed or damaged, it is announced dead at the next death check
+	if t.state == info.Dead {
+		return nil
 	}
 	attr := t.attributes
 
@@ -59,6 +69,11 @@ func (s *Service) ModifyHPByRatio(data info.ModifyHPByRatio, isDamage bool) erro
 	t, ok := s.targets[data.Target]
 	if !ok {
 		return fmt.Errorf("unknown target: %v", data.Target)
+	}
+	// death is final: a unit whose death was not held back by a revive effect (limbo) can no
+	// longer be healed or damaged, it is announced dead at the next death check
+	if t.state == info.Dead {
+		return nil
 	}
 	attr := t.attributes
 
